@@ -24,6 +24,10 @@ func runC18(c *Ctx) {
 
 	c.Rule("R18g", "life-span lattice: in sql/sqlcheck every write of the constant SpanDropped to a ResourceSpan accumulates (`|=`, or `x = x | SpanDropped`), so an object added and dropped by the same file reaches SpanTemporary (Added|Dropped) — the value the destructive analyzer's exemption compares with — and a write of SpanAdded never clears it after a drop in the same switch arm", 3)
 	checkSpanAccumulates(c, "R18g")
+	c.Rule("R18k", ruleTextNolintLocal, 2)
+	checkNolintLocal(c, "R18k")
+	c.Rule("R18l", ruleTextDefaultUnconditional, 1)
+	checkDefaultUnconditional(c, "R18l")
 	c.Rule("R18i", ruleTextChangePerStmt, 1)
 	checkChangePerStmt(c, "R18i")
 	c.Rule("R18j", ruleTextTrimCutset, 1)
